@@ -38,7 +38,10 @@ ran.append(f"with change: cargo test --workspace --no-fail-fast --offline --lib 
 # (2) demo with the change
 r = sh("cargo test --offline --test seeded_demo 2>&1")
 p2, f2 = counts(r.stdout)
-ran.append(f"with change: cargo test --offline --test seeded_demo -> {p2} passed, {f2} failed")
+nocompile = "could not compile" in r.stdout and "error[" in r.stdout
+if nocompile:
+    f2 = max(f2, 1)
+ran.append(f"with change: cargo test --offline --test seeded_demo -> " + ("does not compile: " + re.findall(r"error\[E\d+\][^\n]*", r.stdout)[0] if nocompile else f"{p2} passed, {f2} failed"))
 # (3) demo without the change
 sh("git stash push -- src")
 r = sh("cargo test --offline --test seeded_demo 2>&1")
